@@ -383,9 +383,9 @@ structure SetArgs where
 /-- the `if not mismatch:` block of `_set` at the node that was reached -/
 def setHere (a : SetArgs) : Node → Except Err Node
   | .mk k d p f h lits tok =>
-    if a.data.isSome && d.isSome && !a.overwrite then throw .radiDictKeyError
-    else if a.hooks.isSome && h.isSome && !a.overwrite then throw .radiDictKeyError
-    else pure (.mk k (if a.data.isSome then a.data else d) (if a.data.isSome then a.names else p) f
+    if a.data.isSome && d.isSome && !a.overwrite then .error .radiDictKeyError
+    else if a.hooks.isSome && h.isSome && !a.overwrite then .error .radiDictKeyError
+    else .ok (.mk k (if a.data.isSome then a.data else d) (if a.data.isSome then a.names else p) f
       (if a.hooks.isSome then a.hooks else h) lits tok)
 
 mutual
@@ -412,8 +412,8 @@ def splitIns (a : SetArgs) (n : Node) (route : List Sym) : Except Err Node :=
   let old := n.withKey (n.key.drop cp.length)
   match route.drop cp.length with
   | [] => setHere a (.mk cp none [] none none [old] none)
-  | .lit c :: r => pure (.mk cp none [] none none [chainLit a [c] r, old] none)
-  | .tok g :: r => pure (.mk cp none [] none none [old] (some (chainTok a g r)))
+  | .lit c :: r => .ok (.mk cp none [] none none [chainLit a [c] r, old] none)
+  | .tok g :: r => .ok (.mk cp none [] none none [old] (some (chainTok a g r)))
 
 mutual
 /-- `RadiDict._set(pnode, route, …)`: the new node, or the exception (tree unchanged) -/
@@ -424,11 +424,11 @@ def insN (a : SetArgs) : Node → List Sym → Except Err Node
   | .mk k d p f h lits tok, .tok g :: r =>
     (insT a tok g r).map fun t => .mk k d p f h lits (some t)
 def insT (a : SetArgs) : Option Node → Option Fid → List Sym → Except Err Node
-  | none, g, r => pure (chainTok a g r)
-  | some t, g, r => if t.filter != g then throw .radiDictKeyError else insN a t r
+  | none, g, r => .ok (chainTok a g r)
+  | some t, g, r => if t.filter != g then .error .radiDictKeyError else insN a t r
 /-- `none`: no literal child starts with `c` (the caller mounts a new first child) -/
 def insL (a : SetArgs) : List Node → Char → List Sym → Except Err (Option (List Node))
-  | [], _, _ => pure none
+  | [], _, _ => .ok none
   | k :: ks, c, r =>
     if k.key.head? == some c then
       ((stripKey k.key (.lit c :: r)).elim (splitIns a k (.lit c :: r)) fun rest => insN a k rest).map
@@ -645,46 +645,51 @@ structure AddArgs where
   name : Option Str := none
   overwrite : Bool := false
 
+/-- first half of `RadiRouter._add`: `route_ = self._match(route.pattern, route.filters)`; the
+route found, or a new `Route` stored in the tree and in `routes` -/
+def Router.findOrInsert (R : Router) (rule : Str) (p : Parsed) : Router × Except ErrName Nat :=
+  match R.matchPat p.syms with
+  | some id => (R, .ok id)
+  | none =>
+    match treeAdd R.tree p.syms R.objs.length p.params with
+    | .error e => (R, .error e.name)
+    | .ok t =>
+      ({ R with tree := t,
+                objs := R.objs ++ [{ rule := rule, syms := p.syms, params := p.params, symsOut := p.symsOut }],
+                routes := dictSet R.routes (patStr p.syms) R.objs.length }, .ok R.objs.length)
+
+/-- the name part of `_add` (after the methods were stored) -/
+def Router.registerName (R : Router) (a : AddArgs) (id : Nat) : Router × Except ErrName Nat :=
+  match a.name with
+  | none => (R, .ok id)
+  | some nm =>
+    if nm.isEmpty then (R, .ok id) else
+    match dictGet R.named nm with
+    | some reg =>
+      if !a.overwrite && reg != id then (R, .error "RouteBuildError")
+      else ({ R with named := dictSet R.named nm id }, .ok id)
+    | none => ({ R with named := dictSet R.named nm id }, .ok id)
+
+/-- second half of `_add`: `set_method` / `add_method` on the route, then the name -/
+def Router.register (R : Router) (a : AddArgs) (p : Parsed) (id : Nat) : Router × Except ErrName Nat :=
+  match R.obj? id with
+  | none => (R, .error "fault")
+  | some route =>
+    if a.overwrite then (R.setObj id (route.setMethods a.methods a.handler p.params)).registerName a id
+    else
+      match route.addMethod a.methods a.handler p.params with
+      | .error e => (R, .error e.name)
+      | .ok route' => (R.setObj id route').registerName a id
+
 /-- `RadiRouter._add` after the rule was parsed; methods already upper-cased.  Returns the new
 state together with the outcome, because a rejected `add` can leave effects behind (name clash
 is detected after the methods were stored). -/
 def Router.addParsed (R : Router) (a : AddArgs) (p : Parsed) : Router × Except ErrName Nat :=
   -- `RadiRouter._match`: `if route_pattern: assert route_pattern[0] != '/'`
   if p.syms.head? == some (.lit '/') then (R, .error "AssertionError") else
-  -- route_ = self._match(route.pattern, route.filters)
-  let found : Router × Except ErrName Nat :=
-    match R.matchPat p.syms with
-    | some id => (R, .ok id)
-    | none =>
-      let id := R.objs.length
-      match treeAdd R.tree p.syms id p.params with
-      | .error e => (R, .error e.name)
-      | .ok t =>
-        let route : Route := { rule := a.rule, syms := p.syms, params := p.params, symsOut := p.symsOut }
-        ({ R with tree := t, objs := R.objs ++ [route],
-                  routes := dictSet R.routes (patStr p.syms) id }, .ok id)
-  match found with
-  | (R, .error e) => (R, .error e)
-  | (R, .ok id) =>
-    match R.obj? id with
-    | none => (R, .error "fault")
-    | some route =>
-      let r' : Except Err Route :=
-        if a.overwrite then pure (route.setMethods a.methods a.handler p.params)
-        else route.addMethod a.methods a.handler p.params
-      match r' with
-      | .error e => (R, .error e.name)
-      | .ok route' =>
-        let R := R.setObj id route'
-        match a.name with
-        | none => (R, .ok id)
-        | some nm =>
-          if nm.isEmpty then (R, .ok id) else
-          match dictGet R.named nm with
-          | some reg =>
-            if !a.overwrite && reg != id then (R, .error "RouteBuildError")
-            else ({ R with named := dictSet R.named nm id }, .ok id)
-          | none => ({ R with named := dictSet R.named nm id }, .ok id)
+  match R.findOrInsert a.rule p with
+  | (R', .error e) => (R', .error e)
+  | (R', .ok id) => R'.register a p id
 
 /-- `RadiRouter.add(rule, methods, handler, name, overwrite=…)`; `upper` is `str.upper` -/
 def Router.add (upper : Str → Str) (cenv : CompileEnv) (R : Router) (a : AddArgs) :
@@ -693,6 +698,24 @@ def Router.add (upper : Str → Str) (cenv : CompileEnv) (R : Router) (a : AddAr
   match parseRule cenv a.rule with
   | .error e => (R, .error e)
   | .ok p => R.addParsed a p
+
+/-- `route.remove_method(methods)` on the route object `id` (`RouteMethod.remove`) -/
+def Router.removeMethod (R : Router) (id : Nat) (methods : List Str) : Router :=
+  match R.obj? id with
+  | some r => R.setObj id (r.removeMethod methods)
+  | none => R
+
+/-- the operations of a registration history (what the driver plays between lookups) -/
+inductive Op
+  | add (cenv : CompileEnv) (a : AddArgs)
+  | removeMethod (id : Nat) (methods : List Str)
+
+def Router.step (upper : Str → Str) (R : Router) : Op → Router
+  | .add cenv a => (R.add upper cenv a).1
+  | .removeMethod id ms => R.removeMethod id ms
+
+/-- the router after a history, starting from `RadiRouter()` -/
+def Router.run (upper : Str → Str) (ops : List Op) : Router := ops.foldl (Router.step upper) {}
 
 /-- `str.strip('/')` -/
 def stripSlash (s : Str) : Str := stripBy (· == '/') s
